@@ -471,12 +471,11 @@ theorem multi_insert_stable (ops : List Op) (k v : Int) :
     `G.remove_then_insert_reuses` are the statements for every key type.
   * PropsRot.lean ties `updateHeightAndSlope/rotr/rotl/shiftr/shiftl/rebal` and the pieces of insert / remove / find /
     count to the headers by translation; PropsComp.lean, PropsComp2.lean, PropsComp3.lean compose them: the translated
-    `insert(key, value)` (with the complete private insert), `insert(position, key, value)`, `find`, `count`, `clear()` and
-    `remove(it)` of an item with at most one child, run on a heap that represents a reachable state, yield a heap that
-    represents the model's step.
-    STILL hand-translated (tied by the correspondence run incl. the white-box comparison only): the two-children paths of
-    `remove(it)` (translated, but the equality with `removeRoot/popMin/popMax` is OPEN: see the end of PropsComp3.lean),
-    `remove(key)`, `removeFront/Back`, `contains`, the copy / bulk insert loops.
+    `insert(key, value)` (with the complete private insert), `insert(position, key, value)`, `find`, `contains`, `count`, `clear()`,
+    `remove(it)` for every item (PropsComp5.lean: `gen_remove_eq_step`), `remove(key)`, `removeFront`, `removeBack`, run on a heap that
+    represents a reachable state, yield a heap that represents the model's step.
+    STILL hand-translated (tied by the correspondence run incl. the white-box comparison only): the copy / bulk insert loops
+    (they run over a second container).
 -/
 
 /-! ### non-vacuity: concrete reachable states -/
